@@ -35,7 +35,7 @@ Print Assumptions c15_unchanged_fixpoint.
    members of [keep] (the survivors when members left, the old members when members joined). *)
 Definition C15_full : Prop :=
   forall ppt ms prev st0 assigns reassigns obs r keep,
-    ids_nodup ms -> identical_subs ms -> NoDup (map snd st0) -> prev_ok ppt ms prev ->
+    ids_nodup ms -> identical_subs ms -> NoDup (map snd st0) ->
     pairs_within_one (drop ppt ms st0) keep = true ->
     ctl_run ppt ms prev st0 assigns reassigns obs = Some r ->
     moved_among keep (drop ppt ms st0) (cr_final r) = [].
@@ -44,9 +44,9 @@ Definition C15_full : Prop :=
    other (it is what remains of a within-one assignment) => every accepted run distributes
    the orphaned partitions by Assign steps only; its op log contains no Move, so nothing a
    survivor held goes anywhere else.  Gap: the "members joined" half — there Moves are
-   necessary, which partition is moved depends on the visiting order (sorted_partitions),
-   which StickyCtl abstracts; and the real order is wrong in two input classes, see
-   c15_plus_refuted. *)
+   necessary, and which partition is moved depends on the visiting order
+   (`_populate_sorted_partitions`), which StickyCtl abstracts; see
+   c15_plus_needs_visiting_order.  That half is tied to the code by search only. *)
 Theorem c15_identical_subs_no_survivor_moves_partial :
   forall ppt ms prev st0 assigns reassigns obs r keep,
     ids_nodup ms -> identical_subs ms -> NoDup (map snd st0) ->
@@ -61,12 +61,16 @@ Proof.
 Qed.
 Print Assumptions c15_identical_subs_no_survivor_moves_partial.
 
-(* The full statement is false of the skeleton, and the real executor takes the refuting run
-   (finding, replayed against /repo by the harness: corpus/C15/unsubscribed_topic.json): t0
-   (1 partition, nobody subscribes) and t1 (5 partitions); C0, C1, C2 all subscribe [t1]; C0
-   held t1-2,3,4 and C1 held t1-0,1; C2 is new.  The accepted log moves t1-0 from C1 to C2 and
-   then t1-2 from C0 to C1: a partition moved between two old members. *)
-Theorem c15_plus_refuted : ~ C15_full.
+(* The guards of the skeleton alone do not imply the "members joined" clause: the run below
+   is accepted although it moves t1-2 from C0 to C1, two old members.  It is the run the real
+   executor took before /repo 2a32c57 (regression input corpus/C15/unsubscribed_topic.json:
+   t0, 1 partition, nobody subscribes; t1, 5 partitions; C0, C1, C2 subscribe [t1]; C0 held
+   t1-2,3,4, C1 held t1-0,1, C2 is new) because the unsubscribed topic defeated
+   `_are_subscriptions_identical()` and the generic visiting order was used.  The fixed code
+   visits the partitions in the stickiness-preserving order: on the corpus chain (C0; C0+C1;
+   C0+C1+C2) its third round starts from C0 = t1-0,1,2, C1 = t1-3,4 and moves only t1-2 from C0
+   to C2 (c15_plus_regression); the harness checks on every run that this is the real op log. *)
+Theorem c15_plus_needs_visiting_order : ~ C15_full.
 Proof.
   intros H.
   pose (ppt := [(0, Some 1); (1, Some 5)]).
@@ -80,11 +84,19 @@ Proof.
     - intros m1 s1 m2 s2 t H1 H2 Ht. simpl in H1, H2.
       destruct H1 as [H1|[H1|[H1|[]]]]; destruct H2 as [H2|[H2|[H2|[]]]];
         inversion H1; inversion H2; subst; auto.
-    - apply nodup_tp_b_spec. vm_compute. reflexivity.
-    - intros x c Hx. simpl in Hx. discriminate. }
+    - apply nodup_tp_b_spec. vm_compute. reflexivity. }
   vm_compute in E. inversion E; subst r. vm_compute in Hm. discriminate.
 Qed.
-Print Assumptions c15_plus_refuted.
+Print Assumptions c15_plus_needs_visiting_order.
+
+(* the third round of the fixed code on the corpus chain: accepted, nothing moves between C0 and C1 *)
+Example c15_plus_regression :
+  let ppt := [(0, Some 1); (1, Some 5)] in
+  let ms := [(0, [1]); (1, [1]); (2, [1])] in
+  let st0 := [(0, (1, 0)); (0, (1, 1)); (0, (1, 2)); (1, (1, 3)); (1, (1, 4))] in
+  exists r, ctl_run ppt ms [] st0 [] [(((1, 2), 2), (1, 2))] false = Some r
+            /\ moved_among [0; 1] st0 (cr_final r) = [].
+Proof. eexists. split; vm_compute; reflexivity. Qed.
 
 (* non-vacuity of c15_unchanged_fixpoint: a valid, balanced previous assignment and the
    accepted (empty) log *)
